@@ -286,6 +286,17 @@ Definition route (m : mode) (n : nat) (d : dict) : option (list (op * kwargs)) :
   then Some (map (fun o => (o, kwargs_of m o d)) (plan m n))
   else None.
 
+(** Consecutive transfers on one front-end object.  [route] has no input besides
+    the mode, the part count and the dictionary of the CURRENT call: no state is
+    carried from one transfer to the next, the caller's objects (copy_source,
+    extra_args, subscribers) are only read, and the CopySource value of
+    CopyObject / UploadPartCopy is the caller's (structural value [P]).  So the
+    calls of the i-th transfer of a sequence are [route] of its own arguments;
+    the tie checks exactly this on sequences of transfers that share the
+    caller-owned objects (harness/props/c15.py, stream "sequences"). *)
+Definition route_seq (steps : list (mode * nat * dict)) : list (option (list (op * kwargs))) :=
+  map (fun s => route (fst (fst s)) (snd (fst s)) (snd s)) steps.
+
 (** * The same routing, one keyword argument at a time *)
 
 (** What a single keyword-argument slot of a call holds. *)
